@@ -1304,3 +1304,120 @@ func TestGocvReplay(t *testing.T) {
 	runCancel(t, "inclusiveGateway", ` + "`" + `<bpmn:conditionExpression xsi:type="bpmn:tFormalExpression" language="https://github.com/expr-lang/expr">true</bpmn:conditionExpression>` + "`" + `)
 }
 `
+
+// ---------------------------------------------------------------------------
+// driver: (*flowTracker).run (C07) — the tracer closes its subscribers' channels when it terminates; the tracker of an
+// inclusive gateway that no token has reached (its shutdown is only ever called by the gateway's own loop) keeps
+// receiving from the closed channel: one goroutine at 100% CPU for ever.
+
+func init() {
+	registerReplay(replayDriver{
+		modelFree: true,
+		name:      "bpmn inclusive gateway never reached: cancellation, then CPU time",
+		match: func(ob *Oblig) bool {
+			return strings.HasPrefix(ob.Func, "bpmn.(*flowTracker).run") && strings.Contains(ob.Name, "closed-subscription-does-not-keep-the-tracker-turning")
+		},
+		build: func(ob *Oblig, m map[string]string) (string, string, bool) {
+			return ".", "// generated by gocv for obligation " + ob.Name + "\n" + trackerSpinTest, true
+		},
+	})
+}
+
+const trackerSpinTest = `package bpmn_test
+
+import (
+	"context"
+	"encoding/xml"
+	"syscall"
+	"testing"
+	"time"
+
+	"github.com/olive-io/bpmn/schema"
+	"github.com/olive-io/bpmn/v2"
+	"github.com/olive-io/bpmn/v2/pkg/tracing"
+)
+
+const spinXML = ` + "`" + `<?xml version="1.0" encoding="UTF-8"?>
+<bpmn:definitions xmlns:bpmn="http://www.omg.org/spec/BPMN/20100524/MODEL" xmlns:xsi="http://www.w3.org/2001/XMLSchema-instance" id="D" targetNamespace="http://bpmn.io/schema/bpmn">
+  <bpmn:process id="P" isExecutable="true">
+    <bpmn:startEvent id="s"><bpmn:outgoing>f0</bpmn:outgoing></bpmn:startEvent>
+    <bpmn:task id="t"><bpmn:incoming>f0</bpmn:incoming><bpmn:outgoing>f1</bpmn:outgoing></bpmn:task>
+    <bpmn:GW id="ig"><bpmn:incoming>f1</bpmn:incoming><bpmn:outgoing>f2</bpmn:outgoing></bpmn:GW>
+    <bpmn:endEvent id="e"><bpmn:incoming>f2</bpmn:incoming></bpmn:endEvent>
+    <bpmn:sequenceFlow id="f0" sourceRef="s" targetRef="t" />
+    <bpmn:sequenceFlow id="f1" sourceRef="t" targetRef="ig" />
+    <bpmn:sequenceFlow id="f2" sourceRef="ig" targetRef="e" />
+  </bpmn:process>
+</bpmn:definitions>` + "`" + `
+
+func cpu() time.Duration {
+	var ru syscall.Rusage
+	syscall.Getrusage(syscall.RUSAGE_SELF, &ru)
+	return time.Duration(ru.Utime.Nano() + ru.Stime.Nano())
+}
+
+func runSpin(t *testing.T, gw string) time.Duration {
+	var defs schema.Definitions
+	src := []byte(spinXML)
+	src = []byte(string(src))
+	s := string(src)
+	for _, r := range [][2]string{{"bpmn:GW", "bpmn:" + gw}} {
+		for i := 0; i < 2; i++ {
+			s = replaceOnce(s, r[0], r[1])
+		}
+	}
+	if err := xml.Unmarshal([]byte(s), &defs); err != nil {
+		t.Fatal(err)
+	}
+	ctx, cancel := context.WithCancel(context.Background())
+	tracer := tracing.NewTracer(ctx)
+	traces := tracer.SubscribeChannel(make(chan tracing.ITrace, 1024))
+	proc, err := bpmn.NewEngine().NewProcess(&defs, bpmn.WithTracer(tracer), bpmn.WithContext(ctx))
+	if err != nil {
+		t.Fatal(err)
+	}
+	if err := proc.StartAll(ctx); err != nil {
+		t.Fatal(err)
+	}
+	deadline := time.After(5 * time.Second)
+	for pending := false; !pending; {
+		select {
+		case tr := <-traces:
+			_, pending = tracing.Unwrap(tr).(bpmn.TaskTrace)
+		case <-deadline:
+			t.Fatal("task not requested")
+		}
+	}
+	go func() {
+		for range traces {
+		}
+	}()
+	cancel() // the gateway behind the pending task was never reached
+	select {
+	case <-tracer.Done():
+	case <-time.After(5 * time.Second):
+		t.Fatal("tracer did not terminate")
+	}
+	time.Sleep(200 * time.Millisecond)
+	before := cpu()
+	time.Sleep(500 * time.Millisecond)
+	return cpu() - before
+}
+
+func replaceOnce(s, a, b string) string {
+	for i := 0; i+len(a) <= len(s); i++ {
+		if s[i:i+len(a)] == a {
+			return s[:i] + b + s[i+len(a):]
+		}
+	}
+	return s
+}
+
+func TestGocvReplay(t *testing.T) {
+	d := runSpin(t, "inclusiveGateway")
+	t.Logf("cpu used in 500ms after everything ended: %v", d)
+	if d > 100*time.Millisecond {
+		t.Fatalf("something keeps spinning: %v of CPU in 500ms", d)
+	}
+}
+`
